@@ -138,7 +138,8 @@ const (
 // judge classifies one input: "skip:<reason>" (unspecified), agree-*, or a symptom.
 func judge(src string) (outcome string, ref reflex.Result, impl implResult) {
 	ref = reflex.Lex(src)
-	if !ref.Specified() {
+	// '-' glued to a digit after an operand (a -1, a-1) is read as Go reads it: operator + literal.
+	if !ref.OnlyUnspec(reflex.UMinusDigitAfterOperand) {
 		return "skip:" + ref.Unspec[0], ref, impl
 	}
 	impl = implLex(src)
@@ -590,8 +591,10 @@ func (c *checker) eval(st *stats, space, text string, gen []genTok) {
 	if strings.HasPrefix(outcome, "skip:") {
 		return
 	}
-	if gen != nil {
+	if gen != nil && ref.Specified() {
 		// generative self-check: the reference lexer must reproduce the generating token list
+		// (not where a negative-literal lexeme lands behind an operand: there Go's reading, operator +
+		// literal, is the oracle and differs from the generating list by construction)
 		st.selfChecked++
 		want := ref.Tokens()
 		ok := ref.Err == "" && len(want) == len(gen)
